@@ -31,7 +31,11 @@ class Acc:
             self.samples.append(x)
 
     def merge(self, other):
-        self.n.update(other.n)
+        for k, v in other.n.items():
+            if k.startswith("max"):
+                self.n[k] = max(self.n[k], v)  # counters named max* are merged by maximum
+            else:
+                self.n[k] += v
         for core, ent in other.viol.items():
             mine = self.viol.get(core)
             if mine is None:
